@@ -1005,7 +1005,7 @@ fn record_bus_directed(out: &mut TraceOut) -> Value {
             v.push(Message::RequestOperation(Address(3), Operation::StartReset));
             v.push(Message::RequestOperation(Address(3), Operation::FinishReset));
             v.push(Message::RequestOperation(Address(6), Operation::ReceiveConfig));
-            v.push(sd(0, &cfg_tiny()));
+            v.push(sd(0, SignType::Max3000Dash30x7.to_bytes())); // a known type: taking the chunk in is visible in sign_type()
             v.push(Message::RequestOperation(Address(6), Operation::StartReset));
             v.push(Message::RequestOperation(Address(6), Operation::FinishReset));
         }
